@@ -694,6 +694,30 @@ Definition step (s : st) (o e : line) : st * outline :=
               else (s, (bad_env, []))
           end
       end
+  | 17 :: u :: u2 :: _ =>                                 (* copy union u into u2 (the means of copying is the harness's business) *)
+      match getu s u with
+      | None => (s, (refused, []))
+      | Some uf => (setu s u2 uf, (ok, []))
+      end
+  | 20 :: u :: r :: _ =>                                  (* as 11 without ghost log (feedback cases: the log would double every round) *)
+      match getu s u, getr s r with
+      | Some uf, Some f =>
+          let '(u', c', okb) := F_uupdate (u_un uf) (f_sk f) (chs0 e) in
+          if okb then
+            if chs_ok c' then (setu s u (mkufull u' [] 0), (ok, [])) else (s, (bad_env, []))
+          else (setu s u (mkufull u' [] 0), (refused, []))
+      | _, _ => (s, (refused, []))
+      end
+  | 21 :: u :: r2 :: _ =>                                 (* as 12 without ghost log *)
+      match getu s u with
+      | None => (s, (refused, []))
+      | Some uf =>
+          match F_uresult (u_un uf) (chs0 e) with
+          | None => (s, (refused, []))
+          | Some (v, c') =>
+              if chs_ok c' then (setr s r2 (mkfull v [] 0), (ok, [])) else (s, (bad_env, []))
+          end
+      end
   | 13 :: u :: _ =>                                       (* union reset *)
       match getu s u with
       | None => (s, (refused, []))
